@@ -57,7 +57,7 @@ def run : Runner
     let re := s!"{Bytes.tok W.hash}/{tokList Bytes.tok W.txHashes}/1"
     -- the model's observation is by construction "fresh computation from the wire message + stable identities",
     -- i.e. exactly what C16 prescribes
-    pure { model := s!"EXT {ext} RES {if toks.isEmpty then "-" else " ".intercalate toks} RE {re}", prop := "spec" }
+    pure { model := s!"EXT {ext} RES {if toks.isEmpty then "-" else " ".intercalate toks} RE {re} height-ok", prop := "spec" }
   -- blkbig: the block is too large to transcribe; the wire results arrive as digests and the accessors must
   -- reproduce them (TxLoc, Bytes, last transaction with its index, out-of-range error one past the end)
   | "blkbig", [_, _, ntx, _, _], impl => do
